@@ -35,6 +35,7 @@ def closure_keeps(ses, ex, cname, env=None):
         raise Inconclusive(f"closure {cname} not found")
     ses.report.fn(f)
     ex2 = ses.executor("bin", "default", inline=lambda n, fn: False)
+    ex2.inline_closure_calls = True          # a predicate closure handed in as an argument (`keep(change.tag())`) is run as well
     tag = ex2.fresh_lazy("ChangeTag", "tag")
 
     def hook(ex_, st, callee, args, dty):
@@ -73,8 +74,11 @@ def local_helpers():
     src = open(os.path.join(common.REPO, "src/cli/output_diff.rs")).read()
     names = set(re.findall(r"\bfn\s+(\w+)", src)) - {"output_diff", "output_diff_json", "output_diff_unified", "fmt", "serialize"}
     types = set(re.findall(r"\bimpl(?:<[^>]*>)?\s+(\w+)\s*\{", src))
-    return lambda n, f: ("{closure" not in n and len(f.blocks) <= 40 and re.split(r"::", n)[-1] in names
-                         and ("output_diff" in n or "::" not in n or n.split("::")[0] in types))
+    def pred(n, f):
+        n = re.sub(r"::<.*>$", "", n)          # call-site spelling with turbofish generics
+        return ("{closure" not in n and len(f.blocks) <= 40 and re.split(r"::", n)[-1] in names
+                and ("output_diff" in n or "::" not in n or n.split("::")[0] in types))
+    return pred
 
 
 def analyse(ses, rep):
